@@ -1,15 +1,19 @@
 """
 C19 - dictionary findall returns complete, resolvable, history-independent results.
 
-Lean: Model/FindAll.lean, Proofs/FindAll.lean, Proofs/FindAllDesc.lean, Props/C19.lean
+Lean: Model/FindAll.lean, Proofs/FindAll.lean, Proofs/FindAllDesc.lean, Proofs/FindAllList.lean (list roots), Props/C19.lean
 B streams: fa.tok (normalisation), fa.find (findall end to end + state of the default objects after the call),
   fa.raw (_findall with raise_exception=False / explicit token lists), fa.first (findfirst), fa.hist (sequences of
-  searches through the shared default objects)
+  searches through the shared default objects), fa.pure (result + defaults + the container as it is AFTER the call against
+  the model's answer + the tree the model was given).  Half of the trees are list-rooted (n0list.findall).
 C evaluators (the statement on the real code): search (every key through item access and get, identity; every key
   walked by plain Python indexing), exact (an exact node path finds exactly its node), fanout (name on a list),
   descendant ('//*/name' vs an independent DFS, in the document order of the theorem, again after other searches), pure
   (tree unchanged), defaults (_findall.__defaults__ after every call), history (a search inside a sequence equals
-  the same search on a freshly loaded module), findfirst.
+  the same search on a freshly loaded module), findfirst, mixed (findall/findfirst on list-rooted and dict-rooted
+  containers interleaved and repeated in one process: every outcome equals the one of a freshly loaded module and the
+  first outcome of the same search; encoding and identity of every node of the container unchanged; findfirst
+  none/many signalling).
 """
 import re
 import types
@@ -24,39 +28,59 @@ MANIFEST = dict(
               "arguments as explicit state + differential correspondence with the implementation (results in order, exception "
               "class, contents of _findall.__defaults__ after every call) + the statement executed on the implementation",
     text="Lean (Props/C19.lean), all unbounded in tree size, depth, expression and history length, for the code with "
-         "fixes C19-a/C19-b/C19-c applied: C19_state_invariant - a search started from the fresh default objects ([], {}) "
-         "leaves them ([], {}), for every tree, expression and outcome (exceptions included); C19_objects_untouched - no call "
-         "of _findall modifies the stack dict it received and an empty path list stays empty; C19_list_changes_last_only - a "
-         "call changes at most the last element of the list it received; C19_history_independent - in every sequence of "
-         "searches on the same or different trees each result equals the result of the same search run alone; "
-         "C19_findfirst_state - the same for findfirst; C19_pure - every value returned occurs in the tree searched (the "
-         "model returns values only; that the real code does not write into the tree is checked by the evaluators); "
-         "C19_exact_path - for a dict-rooted tree the canonical xpath of a non-root position made of plain keys and of "
-         "indexes of container elements finds exactly one pair (that xpath, that node); C19_resolves - that key resolves "
-         "through the item-access model (C01 engine) to the same node, tree unchanged; C19_findfirst - findfirst is the "
-         "single pair / (None, None) / IndexError exactly as documented; C19_fanout, C19_fanout_all - a name applied to a "
-         "list of containers is the [*] step followed by the name and returns the merged outcomes of all elements in "
-         "order under the paths ...[i]. Descendant wildcard, for dict-rooted trees whose keys are plain names, no "
-         "dictionary listing a key twice, every list containing only dicts/lists (KeysOkV, ContOkV): "
-         "C19_descendant_complete - '//*/name' returns exactly the pairs (canonical xpath of p, node at p) for the "
+         "fixes C19-a/C19-b/C19-c applied. n0dict.findall and n0list.findall hand self to the same findall(), so the model has "
+         "one entry point (findallTop) for both roots. FOR EVERY ROOT (dict or list, any tree): C19_state_invariant - a search "
+         "started from the fresh default objects ([], {}) leaves them ([], {}), for every tree, expression and outcome "
+         "(exceptions included); C19_objects_untouched - no call of _findall modifies the stack dict it received and an empty "
+         "path list stays empty; C19_list_changes_last_only - a call changes at most the last element of the list it "
+         "received; C19_history_independent - in every sequence of searches on the same or different trees (dict- and "
+         "list-rooted mixed) each result equals the result of the same search run alone; C19_depends_only - hence the outcome "
+         "of a search after any history is a function of the tree and the expression alone; C19_findfirst_state - the same "
+         "for findfirst; C19_pure - every value returned occurs in the tree searched (the model returns values only and does "
+         "not thread the tree, so 'the tree is returned unchanged' has no content as a theorem: it is checked on the "
+         "implementation by stream fa.pure and the evaluators); C19_findfirst - findfirst is the single pair / (None, None) / "
+         "IndexError exactly as documented; C19_fanout - a name applied to a list is the [*] step followed by the name; "
+         "C19_descendant_positions - descV lists (p, w) iff p ends with the key name and the node at p is w (both inclusions, "
+         "any depth, through dicts and lists); C19_descendant_distinct - no position twice, canonical xpaths of distinct "
+         "plain positions differ. FOR DICT-ROOTED TREES: C19_exact_path - the canonical xpath of a non-root position made of "
+         "plain keys and of indexes of container elements finds exactly one pair (that xpath, that node); C19_resolves - that "
+         "key resolves through the item-access model (C01 engine) to the same node, tree unchanged; C19_fanout_all - a name "
+         "applied to a list of containers below the root returns the merged outcomes of all elements in order under the paths "
+         "...[i]; with keys plain, no dictionary listing a key twice, every list containing only dicts/lists (KeysOkV, "
+         "ContOkV): C19_descendant_complete - '//*/name' returns exactly the pairs (canonical xpath of p, node at p) for the "
          "positions p listed by descV, in document order (a node's own entry first, then below each child in key / element "
-         "order); C19_descendant_positions - descV lists (p, w) iff p ends with the key name and the node at p is w (both "
-         "inclusions, any depth, through dicts and lists); C19_descendant_distinct - no position twice, canonical xpaths "
-         "of distinct plain positions differ; C19_descendant_complete_iff - the same as a membership equivalence. Every "
-         "key resolves, for dict-rooted trees with plain keys and no key twice and EVERY expression (names, '*', indexes "
-         "incl. negative and last()+-k, [*], '..', text() conditions): C19_keys_spell - each key of each result is '//' + "
-         "steps (keys, attached integer indexes as written) along which plain Python indexing from the root reaches the "
-         "value, proved through the invariant 'the found-path list renders the position of the current node and every "
-         "proper prefix registered in the stack is registered with its node' over every branch of _findall with the state "
-         "threading of the model; C19_resolves_all - hence item access and get (C01 engine, C01_spellings_string) return "
-         "that value and leave the tree unchanged. C19_text_key_fixed (witness of the former finding C19-c), "
-         "C19_scalar_in_list_cex (outside the quantifier). NOT proved, differential only: the descendant and resolution "
-         "statements for list-rooted containers (n0list.findall), object identity, the real tree not being written. The "
-         "model is compared with the real findall/_findall/findfirst on results in order, exception class and the contents "
-         "of _findall.__defaults__ after every call, single searches and sequences; the statement itself (identity `is`, "
-         "item access and get per key, each key walked by plain indexing, tree unchanged, defaults empty, in-sequence == "
-         "freshly loaded module, fan-out, descendant in document order and again after other searches on the same object, "
-         "findfirst) is executed on the implementation.",
+         "order); C19_descendant_complete_iff - the same as a membership equivalence; for plain keys and no key twice and "
+         "EVERY expression (names, '*', indexes incl. negative and last()+-k, [*], '..', text() conditions): C19_keys_spell - "
+         "each key of each result is '//' + steps (keys, attached integer indexes as written) along which plain Python "
+         "indexing from the root reaches the value, proved through the invariant 'the found-path list renders the position of "
+         "the current node and every proper prefix registered in the stack is registered with its node' over every branch of "
+         "_findall with the state threading of the model; C19_resolves_all - hence item access and get (C01 engine, "
+         "C01_spellings_string) return that value and leave the tree unchanged. FOR LIST-ROOTED CONTAINERS (n0list.findall; "
+         "Proofs/FindAllList.lean; the canonical xpath of a position p below a list root is '//' + rendered p, e.g. "
+         "//[1][0]/a/b[2], the first element of the path list being a group without a name created by the rebinding of the "
+         "empty list to ['']): C19_exact_path_list - the canonical xpath of a position [n]+rest (indexes of container "
+         "elements, plain keys), written with the prefix '//', '/' or none, finds exactly one pair ('//'+rendered position, "
+         "that node), defaults untouched; C19_fanout_all_root - a name applied to the list root itself returns the merged "
+         "outcomes of all elements in order under the paths [i]; under KeysOkV, ContOkV (the root list included): "
+         "C19_descendant_complete_list - '//*/name' returns exactly the pairs ('//'+rendered p, node at p) for the positions "
+         "p of descV, element by element in document order, nothing else; C19_descendant_complete_iff_list - the membership "
+         "form; under KeysOkV only and for EVERY expression: C19_keys_spell_list - each key of each result is '//' + steps "
+         "(first the integer indexes applied at the root, then keys with attached indexes) along which plain Python indexing "
+         "from the root list reaches the value, proved through the list-root invariant FalInv over every branch of _findall; "
+         "C19_resolves_all_list - hence item access and get on the n0list (C01 engine, C01_spellings_string_list; the key "
+         "'//' = the root itself) return that value and leave the tree unchanged; C19_resolves_list - in particular the key of "
+         "an exact-path result. C19_text_key_fixed (witness of the former finding C19-c), C19_scalar_in_list_cex, "
+         "C19_scalar_in_list_root_cex (a scalar in a list under a wildcard/name raises IndexError: outside the quantifier). "
+         "NOT proved, checked on the implementation only: object identity (`is`), and that the real code does not write "
+         "into the tree (the model is a pure function that does not thread the tree). The model is compared with the real "
+         "findall/_findall/findfirst on results in order, exception class and the contents of _findall.__defaults__ after "
+         "every call, single searches and sequences, half of the trees list-rooted; stream fa.pure also compares the encoding "
+         "of the real container after the call with the tree the model was given; the statement itself (identity `is`, item "
+         "access and get per key, each key walked by plain indexing, tree unchanged, defaults empty, in-sequence == freshly "
+         "loaded module, fan-out also at a list root, descendant in document order and again after other searches on the "
+         "same object, findfirst none/one/many also on list roots, findall/findfirst on list- and dict-rooted containers "
+         "interleaved and repeated in one process with encoding and identity of every node unchanged) is executed on the "
+         "implementation.",
     note="keys are plain names (an n0dict resolves keys containing '/' or '[' as xpaths); lower()/isnumeric() beyond ASCII "
          "are outside the model (answered 'unsupported'); object identity is checked on the implementation only.",
     design_ref="5/C19",
@@ -269,6 +293,19 @@ def impl_find(o, expr):
     reset_defaults()
     s = show_found(core.call(lambda: o.findall(expr)))
     s += " | " + defaults_state()
+    reset_defaults()
+    return s
+
+
+def impl_pure(o, expr):
+    """the outcome, the defaults and the encoding of the real container AFTER the call"""
+    reset_defaults()
+    s = show_found(core.call(lambda: o.findall(expr)))
+    s += " | " + defaults_state()
+    try:
+        s += " | " + enc_val(o)
+    except Exception as e:  # noqa: BLE001  (the container no longer encodes: it was written into)
+        s += " | tree-corrupt " + type(e).__name__
     reset_defaults()
     return s
 
@@ -574,12 +611,137 @@ def check_findfirst(c):
     return None
 
 
-EVALS = {"search": check_search, "exact": check_exact, "fanout": check_fanout, "descendant": check_descendant, "history": check_history, "findfirst": check_findfirst}
-KNOWN = {"search": None, "exact": None, "fanout": None, "descendant": None, "history": None, "findfirst": None}
+
+def node_ids(o):
+    """identity of every container node, document order (a search must not replace nodes by copies)"""
+    out = []
+
+    def go(x):
+        if isinstance(x, dict):
+            out.append(id(x))
+            for v in dict.values(x):
+                go(v)
+        elif isinstance(x, list):
+            out.append(id(x))
+            for v in list.__iter__(x):
+                go(v)
+
+    go(o)
+    return out
+
+
+def same_first(a, b):
+    """two findfirst outcomes: same exception class, or the same key with the identical value (or both (None, None))"""
+    if a[0] != b[0]:
+        return False
+    if a[0] == "err":
+        return a[1] == b[1]
+    x, y = a[1], b[1]
+    if not (isinstance(x, tuple) and isinstance(y, tuple) and len(x) == 2 and len(y) == 2):
+        return False
+    return x[0] == y[0] and x[1] is y[1]
+
+
+def show_first(g):
+    return repr(g)[:200]
+
+
+def first_spec(all_outcome, re_, g):
+    """findfirst as documented, from the outcome of findall: None when g is what it has to be"""
+    if all_outcome[0] == "err":
+        return None if g == all_outcome else "findall raised %s" % all_outcome[1]
+    found = all_outcome[1] or {}
+    if len(found) == 0:
+        ok = (g == ("err", "IndexError")) if re_ else (g == ("ok", (None, None)))
+        return None if ok else "nothing found"
+    if len(found) > 1 and re_:
+        return None if g == ("err", "IndexError") else "several found"
+    k0 = next(iter(found))
+    ok = g[0] == "ok" and isinstance(g[1], tuple) and len(g[1]) == 2 and g[1][0] == k0 and g[1][1] is found[k0]
+    return None if ok else "first pair expected"
+
+
+def check_mixed(c):
+    """findall / findfirst on list-rooted and dict-rooted containers interleaved and repeated in one process: every
+    outcome equals the outcome of the same call on a freshly loaded module (history independence) and the first outcome
+    of the same call in this sequence (depends only on the tree and the expression); the containers keep their encoding
+    and the identity of every node (not modified); the defaults stay empty; findfirst signals none/many as documented."""
+    import n0struct.n0struct_findall as live
+
+    objs = build_hist(c)
+    reset_defaults()
+    seen = {}
+    try:
+        for n, (i, e, kind) in enumerate(c["steps"]):
+            o = objs[i]
+            before, ids = enc_val(o), node_ids(o)
+            fresh = fresh_module(live)
+            if kind == "a":
+                got = core.call(lambda: o.findall(e))
+                want = core.call(lambda: fresh.findall(o, e))
+                same, show = same_found, lambda r: show_found(r)[:300]
+            else:
+                re_ = kind == "T"
+                got = core.call(lambda: o.findfirst(e, re_))
+                want = core.call(lambda: fresh.findfirst(o, e, re_))
+                same, show = same_first, show_first
+            if not defaults_clean():
+                return {"step": n, "expr": e, "kind": kind, "defaults_after_call": defaults_state()}
+            if enc_val(o) != before:
+                return {"step": n, "expr": e, "kind": kind, "tree_changed": True}
+            if node_ids(o) != ids:
+                return {"step": n, "expr": e, "kind": kind, "tree_changed": "identity of a node"}
+            if not same(got, want):
+                return {"step": n, "expr": e, "kind": kind, "in_sequence": show(got), "fresh": show(want)}
+            if kind != "a":
+                why = first_spec(core.call(lambda: fresh.findall(o, e)), kind == "T", got)
+                if why:
+                    return {"step": n, "expr": e, "kind": kind, "raise_exception": kind == "T", "findfirst": show_first(got), "why": why}
+            key = (i, e, kind)
+            if key in seen and not same(seen[key], got):
+                return {"step": n, "expr": e, "kind": kind, "repeat_differs": show(got), "first_time": show(seen[key])}
+            seen.setdefault(key, got)
+        return None
+    finally:
+        reset_defaults()
+
+
+def gen_mixed(rng, trees_l, trees_d):
+    """a sequence that alternates between list-rooted and dict-rooted containers and repeats searches on the list-rooted ones"""
+    ts = [rng.choice(trees_l), rng.choice(trees_d)]
+    if rng.random() < 0.4:
+        ts.append(rng.choice(trees_l))
+    steps = []
+    pool = {}
+    for i, t in enumerate(ts):
+        es = gen_exprs(rng, t["tree"], 3) + ["//*/name", "name", "zz", "[*]", "//"]
+        poss = [p for p, _v in X.positions(t["tree"]) if p]
+        if poss:
+            es.append(canon(t["tree"], rng.choice(poss)))
+        pool[i] = es
+    for _ in range(rng.choice([4, 6, 8, 10])):
+        i = rng.randrange(len(ts)) if rng.random() < 0.3 else (len(steps) % 2 if len(ts) == 2 else rng.choice([0, 1, 2, 1]))
+        e = rng.choice(pool[i])
+        kind = rng.choice("aaaTF")
+        steps.append((i, e, kind))
+        if steps and rng.random() < 0.35:  # an earlier call on a list-rooted container again, after the others
+            back = [s for s in steps if isinstance(ts[s[0]]["tree"], list)]
+            if back:
+                steps.append(rng.choice(back))
+    return {"trees": [t["tree"] for t in ts], "modes": [t["mode"] for t in ts], "steps": steps, "inq": all(t["inq"] for t in ts)}
+
+
+EVALS = {"mixed": check_mixed, "search": check_search, "exact": check_exact, "fanout": check_fanout, "descendant": check_descendant, "history": check_history, "findfirst": check_findfirst}
+KNOWN = {"mixed": None, "search": None, "exact": None, "fanout": None, "descendant": None, "history": None, "findfirst": None}
 
 
 def case_valid(ev, c):
     try:
+        if ev == "mixed":
+            return all(valid_tree(t) for t in c["trees"]) and len(c["trees"]) == len(c["modes"]) and all(m in ("n0", "wrap") for m in c["modes"]) \
+                and all(isinstance(s, (list, tuple)) and len(s) == 3 and isinstance(s[0], int) and 0 <= s[0] < len(c["trees"]) and isinstance(s[1], str)
+                        and s[2] in ("a", "T", "F") for s in c["steps"]) and len(c["steps"]) > 0 \
+                and any(isinstance(c["trees"][s[0]], list) for s in c["steps"])
         if ev == "history":
             return all(valid_tree(t) for t in c["trees"]) and len(c["trees"]) == len(c["modes"]) and all(m in ("n0", "wrap") for m in c["modes"]) \
                 and all(isinstance(s, (list, tuple)) and len(s) == 2 and isinstance(s[0], int) and 0 <= s[0] < len(c["trees"]) and isinstance(s[1], str) for s in c["steps"]) and len(c["steps"]) > 0
@@ -612,13 +774,16 @@ def shrink_failure(evaluator, case):
 
     def texts(c):
         # the searched name / expression(s) are part of the property's quantifier: only the trees may shrink
-        return (c.get("name"), c.get("expr"), c.get("mode"), sorted({e for _i, e in c.get("steps", [])}) if "steps" in c else None)
+        return (c.get("name"), c.get("expr"), c.get("mode"), sorted({tuple(st[1:]) for st in c.get("steps", [])}) if "steps" in c else None)
 
     def still(c):
         if not case_valid(ev, c):
             return False
         if "steps" in c:
-            if not set(e for _i, e in c["steps"]) <= set(e for _i, e in case["steps"]):
+            if not set(tuple(st[1:]) for st in c["steps"]) <= set(tuple(st[1:]) for st in case["steps"]):
+                return False
+            it = iter(case["modes"])  # the conversion mode of a container is an option: never changed, only dropped with its tree
+            if not all(m in it for m in c["modes"]):
                 return False
         elif texts(c) != texts(case):
             return False
@@ -635,7 +800,7 @@ def failure_kind(bad):
     if "what" in bad:
         return ("what", bad["what"])
     return tuple(sorted(k for k in bad if k in ("raised", "missing", "order", "after_related_calls", "defaults_after_call", "tree_changed",
-                                                  "in_sequence", "oracle_keys_collide", "raise_exception", "found", "got", "key")))
+                                                  "in_sequence", "oracle_keys_collide", "raise_exception", "found", "got", "key", "repeat_differs", "why")))
 
 
 def replay(rp):
@@ -678,12 +843,12 @@ def witness_fails(f):
 
 # --------------------------------------------------------------------------- run
 def run(ctx):
-    ntrees = ctx.budget(500, 9000)
+    ntrees = ctx.budget(600, 10000)
     rng = ctx.rng("trees")
     trees = []
     for _ in range(ntrees):
         inq = rng.random() < 0.8
-        t = gen_node(rng, rng.choice([2, 3, 3, 4]), inq, rng.choice("dddl"))
+        t = gen_node(rng, rng.choice([2, 3, 3, 4]), inq, rng.choice("dl"))  # n0dict.findall and n0list.findall with the same density
         trees.append({"tree": t, "mode": rng.choice(["n0", "wrap"]), "inq": lists_ok(t)})
 
     rng = ctx.rng("exprs")
@@ -703,6 +868,13 @@ def run(ctx):
         "fa.find", searches,
         lambda c: "fa.find %s %s" % (enc_str(c["expr"]), enc_val(X.convert(c["tree"], c["mode"]))),
         lambda c: impl_find(X.convert(c["tree"], c["mode"]), c["expr"]),
+        nontrivial=lambda c: len(model_tokens(c["expr"])) > 1,
+    )
+    # ---- B: the container after the call (the model does not thread the tree: its answer ends with the tree it was given)
+    ctx.correspond(
+        "fa.pure", searches[2:: 3],
+        lambda c: "fa.pure %s %s" % (enc_str(c["expr"]), enc_val(X.convert(c["tree"], c["mode"]))),
+        lambda c: impl_pure(X.convert(c["tree"], c["mode"]), c["expr"]),
         nontrivial=lambda c: len(model_tokens(c["expr"])) > 1,
     )
     # ---- B: _findall directly, raise_exception False/True, explicit tokens
@@ -742,11 +914,24 @@ def run(ctx):
         hists.append({"trees": [t["tree"] for t in ts], "modes": [t["mode"] for t in ts], "steps": steps, "inq": all(t["inq"] for t in ts)})
     ctx.correspond("fa.hist", hists, hist_line, impl_hist, nontrivial=lambda c: len(c["steps"]) > 2)
     ctx.evaluate("history", hists, check_history, nontrivial=lambda c: len(c["steps"]) > 2)
+    # ---- C: list-rooted and dict-rooted containers interleaved / repeated in one process, findall and findfirst
+    rng = ctx.rng("mixed")
+    trees_l = [t for t in trees if isinstance(t["tree"], list)]
+    trees_d = [t for t in trees if isinstance(t["tree"], dict)]
+    mixed = [gen_mixed(rng, trees_l, trees_d) for _ in range(ctx.budget(200, 4000))] if trees_l and trees_d else []
+    ctx.evaluate("mixed", mixed, check_mixed, nontrivial=lambda c: len(c["steps"]) > 3)
 
     # ---- C: the statement on in-quantifier trees
     inq = [s for s in searches if s["inq"]]
     ctx.evaluate("search", inq, check_search, nontrivial=lambda c: len(model_tokens(c["expr"])) > 1)
-    ctx.evaluate("findfirst", inq[:: 2], check_findfirst)
+    rng = ctx.rng("first-list")
+    first_list = []
+    for t in trees:
+        if t["inq"] and isinstance(t["tree"], list) and rng.random() < 0.5:
+            poss = [p for p, _v in X.positions(t["tree"]) if p]
+            for e in ["zz", "name", "[*]", "//*/name"] + ([canon(t["tree"], rng.choice(poss))] if poss else []):
+                first_list.append({"tree": t["tree"], "mode": t["mode"], "expr": e, "inq": True})
+    ctx.evaluate("findfirst", inq[:: 2] + first_list, check_findfirst)
     rng = ctx.rng("exact")
     exact, fan, desc = [], [], []
     for t in trees:
@@ -773,14 +958,23 @@ def run(ctx):
         "the C evaluators run on trees whose lists contain only dicts or lists (the property's quantifier); B streams also cover lists of scalars",
         "bracket steps and text() operands are ASCII (lower()/isnumeric() beyond ASCII are answered 'unsupported' by the model)",
         "object identity is checked on the implementation only; the model speaks about values/positions",
+        "the model does not thread the tree (it is an argument, never part of a result): 'the tree is not modified' is checked on the implementation (stream fa.pure: encoding after the call; evaluators search/history/mixed: encoding and identity of every node)",
+        "n0list.findall / n0dict.findall hand self to the same findall(): one model entry point (findallTop) for both roots; half of the generated trees are list-rooted",
         "'fresh search' of the history evaluator = the same search on a newly executed copy of n0struct_findall.py (new function objects, new default objects)",
     ]
-    ctx.extra["trusted_base"] = ["model of findall/_findall/findfirst (lean/N0Verif/Model/FindAll.lean), validated by streams fa.tok/fa.find/fa.raw/fa.first/fa.hist"]
+    ctx.extra["trusted_base"] = ["model of findall/_findall/findfirst (lean/N0Verif/Model/FindAll.lean), validated by streams fa.tok/fa.find/fa.raw/fa.first/fa.hist/fa.pure"]
     ctx.extra["distribution"] = {
         "trees": len(trees), "in_quantifier": sum(1 for t in trees if t["inq"]), "searches": len(searches), "histories": len(hists),
         "exact": len(exact), "fanout": len(fan), "descendant": len(desc),
         "with_dotdot": sum(1 for s in searches if has_dotdot(s["expr"])), "with_text": sum(1 for s in searches if has_text(s["expr"])),
         "list_rooted": sum(1 for t in trees if isinstance(t["tree"], list)),
+        "list_rooted_searches": sum(1 for s in searches if isinstance(s["tree"], list)),
+        "list_rooted_in_quantifier": sum(1 for t in trees if t["inq"] and isinstance(t["tree"], list)),
+        "list_rooted_exact": sum(1 for c in exact if isinstance(c["tree"], list)),
+        "list_rooted_fanout_at_root": sum(1 for c in fan if not c["pos"]),
+        "list_rooted_descendant": sum(1 for c in desc if isinstance(c["tree"], list)),
+        "mixed": len(mixed), "mixed_findfirst_steps": sum(1 for c in mixed for st in c["steps"] if st[2] != "a"),
+        "findfirst_list_rooted": len(first_list),
     }
 
 
